@@ -546,27 +546,27 @@ Qed.
 Print Assumptions C05_tr_term_read_queued.
 
 (* non-vacuity: the zero-initialised statics satisfy the invariant, and the translated functions RUN from there:
-   a push of 5000 cells is clipped to IBUFSZ, a read takes the first key, a push into the full buffer adds nothing,
+   a push of IBUFSZ + 904 cells is clipped to IBUFSZ, a read takes the first key, a push into the full buffer adds nothing,
    a push "xy" after another start lands in front of "abc"; the counters in memory are those of the model run *)
 Example C05_tr_term_runs :
   let G := length GenCFuncs.cglobals in
-  let m0 := GenCFuncs.cglobals ++ [repeat (CLite.VInt 65%Z) 5000; map CLite.VInt [97; 98; 99]%Z; map CLite.VInt [120; 121]%Z; [CLite.VUndef]] in
+  let m0 := GenCFuncs.cglobals ++ [repeat (CLite.VInt 65%Z) (Z.to_nat (IBUFSZ + 904)); map CLite.VInt [97; 98; 99]%Z; map CLite.VInt [120; 121]%Z; [CLite.VUndef]] in
   let run f args m := CLite.callf GenCFuncs.cprog 10 1 f args m in
   let ctrs m := (TrTerm.peek1 m GenCFuncs.G_ibuf_pos, TrTerm.peek1 m GenCFuncs.G_ibuf_cnt, TrTerm.peek1 m GenCFuncs.G_icmd_pos) in
   let model ops := match t_run t_init ops with Ok t => (Some (ibuf_pos t), Some (ibuf_cnt t), Some (icmd_pos t)) | _ => (None, None, None) end in
   TrTerm.term_at m0 0%Z 0%Z GenCFuncs.gb_ibuf 0%Z GenCFuncs.gb_icmd /\
-  match run GenCFuncs.F_term_push [CLite.VPtr G 0%Z; CLite.VInt 5000%Z] m0 with
+  match run GenCFuncs.F_term_push [CLite.VPtr G 0%Z; CLite.VInt (IBUFSZ + 904)%Z] m0 with
   | CLite.Ok (_, m1) =>
-    ctrs m1 = (Some 0%Z, Some IBUFSZ, Some 0%Z) /\ ctrs m1 = model [TPush 5000] /\
+    ctrs m1 = (Some 0%Z, Some IBUFSZ, Some 0%Z) /\ ctrs m1 = model [TPush (IBUFSZ + 904)] /\
     match run GenCFuncs.F_term_read [] m1 with
     | CLite.Ok (c, m2) =>
-      c = CLite.VInt 65%Z /\ ctrs m2 = model [TPush 5000; TRead None] /\
+      c = CLite.VInt 65%Z /\ ctrs m2 = model [TPush (IBUFSZ + 904); TRead None] /\
       match run GenCFuncs.F_term_push [CLite.VPtr (G + 1) 0%Z; CLite.VInt 3%Z] m2 with
       | CLite.Ok (_, m3) =>
-        ctrs m3 = (Some 1%Z, Some IBUFSZ, Some 1%Z) /\ ctrs m3 = model [TPush 5000; TRead None; TPush 3] /\
-        TrTerm.peek m3 GenCFuncs.G_ibuf 5000 = repeat (CLite.VInt 65%Z) (Z.to_nat IBUFSZ) /\
+        ctrs m3 = (Some 1%Z, Some IBUFSZ, Some 1%Z) /\ ctrs m3 = model [TPush (IBUFSZ + 904); TRead None; TPush 3] /\
+        TrTerm.peek m3 GenCFuncs.G_ibuf (Z.to_nat (IBUFSZ + 904)) = repeat (CLite.VInt 65%Z) (Z.to_nat IBUFSZ) /\
         match run GenCFuncs.F_term_cmd [CLite.VPtr (G + 3) 0%Z] m3 with
-        | CLite.Ok (_, m4) => ctrs m4 = model [TPush 5000; TRead None; TPush 3; TCmd] /\ TrTerm.peek m4 (G + 3) 1 = [CLite.VInt 1%Z]
+        | CLite.Ok (_, m4) => ctrs m4 = model [TPush (IBUFSZ + 904); TRead None; TPush 3; TCmd] /\ TrTerm.peek m4 (G + 3) 1 = [CLite.VInt 1%Z]
         | _ => False end
       | _ => False end
     | _ => False end
@@ -589,36 +589,3 @@ Example C05_tr_term_push_oob :
   CLite.callf GenCFuncs.cprog 10 1 GenCFuncs.F_term_push [CLite.VPtr G 0%Z; CLite.VInt 3%Z]
     (CLiteProps.upd GenCFuncs.cglobals GenCFuncs.G_ibuf_cnt [CLite.VInt (IBUFSZ + 1)%Z] ++ [map CLite.VInt [97; 98; 99]%Z]) = CLite.Err CLite.EOob.
 Proof. cbv zeta. split; vm_compute; reflexivity. Qed.
-
-(* ======================================================================================== *)
-(* (9) uc.c uc_trim (a04410e), CapDefs3.v: what the editor keeps of a string that snprintf cut to the size of a fixed
-   array (cmp[64] of led_line, vi_msg[512]).  For EVERY string of non-NUL bytes: the loop terminates, the terminator is
-   stored inside the string's own bytes, the result is a prefix of the input (so never longer), it consists of whole
-   characters as uc_len counts them (no lead byte without the bytes it announces: uc_code never reads past the end),
-   it is the LONGEST such prefix (it is the whole input, or the next character announces more bytes than are left),
-   and trimming it again changes nothing *)
-Theorem C05_uc_trim_spec : forall s, nonul s ->
-  exists i, uc_trim s = Ok (firstn i s) /\ (i <= length s)%nat /\ wholechars (firstn i s) /\
-            (i = length s \/ (length s < i + UcDefs.uc_len (skipn i s))%nat) /\
-            uc_trim (firstn i s) = Ok (firstn i s).
-Proof. exact uc_trim_spec. Qed.
-Print Assumptions C05_uc_trim_spec.
-
-(* snprintf into an array of [size] bytes followed by uc_trim: of a string of whole characters, whole characters of that
-   string are kept, fewer than [size] bytes *)
-Theorem C05_cut_keeps_whole_chars : forall size s, nonul s -> wholechars s ->
-  exists i, cut_store size s = Ok (firstn i s) /\ (i <= size - 1)%nat /\ (i <= length s)%nat /\ wholechars (firstn i s).
-Proof. exact cut_store_spec. Qed.
-Print Assumptions C05_cut_keeps_whole_chars.
-
-(* non-vacuity and teeth: "ab" + two four-byte characters cut to 7 + 1 bytes keeps "ab" and the first character; the
-   untrimmed cut "ab" f0 9f 98 80 f0 is not made of whole characters (what a04410e repaired) *)
-Example C05_nonvacuous4 :
-  let s := [97; 98; 240; 159; 152; 128; 240; 159; 152; 128]%N in
-  nonul s /\ wholechars s /\ cut_store 8 s = Ok [97; 98; 240; 159; 152; 128]%N /\ ~ wholechars (firstn 7 s).
-Proof.
-  cbv zeta. split; [repeat constructor|]. split.
-  { repeat (apply wc_cons; [discriminate|vm_compute; split; repeat constructor|cbn]). constructor. }
-  split; [vm_compute; reflexivity|].
-  intro W. pose proof (trim_at_whole 8 _ 0 W (le_n 8)) as H. vm_compute in H. discriminate H.
-Qed.
